@@ -339,6 +339,10 @@ func mergeVals(c *Term, a, b Value) (Value, bool) {
 		if !ok || x.w != y.w {
 			return nil, false
 		}
+		if x.w >= 16 && x.op == OpConst && y.op == OpConst && x.c != y.c {
+			// control-dependent concrete integers (indices, bounds, counters) stay concrete: fork instead
+			return nil, false
+		}
 		return mkIte(c, x, y), true
 	case float64:
 		y, ok := b.(float64)
